@@ -9,7 +9,8 @@ TB_COMMON = [
 
 PROPS = {
     "C19": {
-        "components": ["txindex"],
+        # txindex: the index itself; tower: the two call sites that feed it (watcher and responder), in whole histories
+        "components": ["txindex", "tower"],
         "monitor_props": ["C19"],
         "trusted_base": TB_COMMON + [
             "modelled, not verified: std HashMap/VecDeque, rust-bitcoin hashing, lightning-block-sync block validation",
